@@ -213,7 +213,8 @@ where
             "Decoded key package using {}", format
         );
 
-        let key_package_in = KeyPackageIn::tls_deserialize(&mut key_package_bytes.as_slice())?;
+        // `_exact`: refuse content that carries anything after the key package
+        let key_package_in = KeyPackageIn::tls_deserialize_exact(key_package_bytes.as_slice())?;
 
         let key_package =
             key_package_in.validate(self.provider.crypto(), ProtocolVersion::Mls10)?;
